@@ -700,6 +700,167 @@ def check_driver_history(kind, ops):
     return got, None
 
 
+# ------------------------------------------------------------------ RadioDriver object: queues across close / reconnect
+def queue_term(qops):
+    def t(o):
+        return {'connect': 'QConnect', 'close': 'QClose', 'pump': 'QPump'}.get(o[0]) or ('QSend %d' % o[1])
+    return 'qobs (qrun FreshQueues qinit [%s])' % '; '.join(t(o) for o in qops)
+
+
+def run_radio_queue_history(ops):
+    """ONE real RadioDriver object with its REAL comm threads (one per connection) over a fake Crazyradio that records
+    every frame.  ops: ['connect'] / ['send', p] / ['close'] / ['wait'] /
+    ['blocked', pA, pB] (the radio stalls, pA fills the 1-slot out queue, another thread blocks in send_packet(pB), close()
+    runs, the radio resumes).  Returns frames [(connection, p)], the sends made while open per connection, and the op list
+    for the model (with the points where the comm thread had time to transmit)."""
+    import threading
+    import time
+    from cflib.crtp import radiodriver
+    from cflib.crtp.crtpstack import CRTPPacket
+    frames, radios = [], []
+    lock = threading.Lock()
+
+    class Ack:
+        ack, powerDet, retry = True, False, 0
+        data = ()
+
+    class Radio:
+        version = 1.0
+
+        def __init__(self):
+            self.conn = len(radios) + 1
+            self.go = threading.Event()
+            self.go.set()
+            self.stalled = threading.Event()
+
+        def set_channel(self, c): pass
+        def set_data_rate(self, d): pass
+        def set_address(self, a): pass
+        def set_arc(self, a): pass
+        def close(self): pass
+
+        def send_packet(self, data):
+            data = tuple(data)
+            if not self.go.is_set():
+                self.stalled.set()
+                self.go.wait(5)
+            if data != (0xff, 0x05, 0x01) and len(data) > 1:
+                with lock:
+                    frames.append((self.conn, data[1]))
+            time.sleep(0.001)
+            return Ack()
+
+    def open_radio(devid):
+        radios.append(Radio())
+        return radios[-1]
+    saved = radiodriver.RadioManager.__dict__['open']
+    radiodriver.RadioManager.open = staticmethod(open_radio)
+    link = radiodriver.RadioDriver()
+    sends_open, qops = {}, []
+    is_open = False
+    model_ok = True
+
+    def wait_frame(conn, p, limit=1.0):
+        t0 = time.time()
+        while time.time() - t0 < limit:
+            with lock:
+                if (conn, p) in frames:
+                    return True
+            time.sleep(0.002)
+        return False
+    try:
+        for o in ops:
+            if o[0] == 'connect':
+                if not is_open:
+                    link.connect('radio://0/80/2M', None, None)
+                    is_open = True
+                    qops.append(['connect'])
+                    time.sleep(0.08)            # a reconnected comm thread gets time to transmit what it finds queued
+                    qops.append(['pump'])
+            elif o[0] == 'send':
+                pk = CRTPPacket(0x90, [o[1], 1])
+                if is_open:
+                    sends_open.setdefault(len(radios), set()).add(o[1])
+                if link.out_queue is not None:
+                    if link.out_queue.full():
+                        link.out_queue.get()     # keep the harness from blocking 2 s on a queue nobody serves
+                    link.send_packet(pk)
+                    qops.append(['send', o[1]])
+                    if is_open:
+                        wait_frame(len(radios), o[1])
+                        qops.append(['pump'])
+            elif o[0] == 'close':
+                if is_open:
+                    link.close()
+                    is_open = False
+                    qops.append(['close'])
+            elif o[0] == 'wait':
+                time.sleep(0.08)
+                if is_open:
+                    qops.append(['pump'])
+            elif o[0] == 'blocked':
+                if not is_open:
+                    continue
+                model_ok = False                 # timing-dependent: judged by the oracle only
+                radio = radios[-1]
+                radio.stalled.clear()
+                radio.go.clear()
+                radio.stalled.wait(1)
+                sends_open.setdefault(len(radios), set()).update([o[1], o[2]])
+                link.send_packet(CRTPPacket(0x90, [o[1], 1]))
+                th = threading.Thread(target=lambda: link.send_packet(CRTPPacket(0x90, [o[2], 1])), daemon=True)
+                th.start()
+                time.sleep(0.03)
+                threading.Timer(0.03, radio.go.set).start()
+                link.close()
+                is_open = False
+                th.join(3)
+        if is_open:
+            link.close()
+    finally:
+        for r in radios:
+            r.go.set()
+        th = getattr(link, '_thread', None)
+        if th is not None:              # never leave a comm thread running
+            try:
+                th.stop()
+            except Exception:
+                pass
+        setattr(radiodriver.RadioManager, 'open', saved)
+    return {'frames': list(frames), 'sends_open': {k: sorted(v) for k, v in sends_open.items()},
+            'qops': qops if model_ok else None}
+
+
+def radio_queue_histories():
+    return [
+        [['connect'], ['close'], ['send', 2], ['connect'], ['wait']],
+        [['connect'], ['send', 1], ['close'], ['send', 2], ['connect'], ['wait'], ['send', 3], ['close']],
+        [['connect'], ['send', 1], ['send', 2], ['close'], ['send', 3], ['wait'], ['connect'], ['send', 4], ['close'], ['send', 5],
+         ['connect'], ['wait'], ['close']],
+        [['send', 9], ['connect'], ['send', 1], ['close']],
+        [['connect'], ['send', 1], ['blocked', 2, 3], ['connect'], ['wait'], ['send', 4], ['close']],
+        [['connect'], ['blocked', 2, 3], ['send', 5], ['connect'], ['wait'], ['close']],
+    ]
+
+
+def check_radio_queue_history(ops):
+    case = {'radio_queue_history': ops}
+    try:
+        got = run_radio_queue_history(ops)
+    except Exception as e:
+        return None, {'class': 'radio_queue_history_raises', 'case': case, 'expected': None, 'observed': repr(e),
+                      'detail': 'connect/send/close history on one RadioDriver object raised'}
+    for conn, p in got['frames']:
+        if p not in got['sends_open'].get(conn, []):
+            return got, {'class': 'frame_of_closed_driver_or_other_session_transmitted', 'case': case,
+                         'expected': {'frames of connection %d' % conn: got['sends_open'].get(conn, [])},
+                         'observed': got['frames'],
+                         'detail': 'RadioDriver: connection %d transmitted packet %d, which was not handed to send_packet during '
+                                   'that connection while the driver was open (it was handed to the closed driver / in an earlier '
+                                   'session): transmitted on a closed link\'s behalf in a later session' % (conn, p)}
+    return got, None
+
+
 # ------------------------------------------------------------------ events -> Coq
 def _ev(e):
     k = e[0]
@@ -971,6 +1132,23 @@ def tie(ctx):
         nd += 1
         dis.append({'what': 'UsbDriver over a fake device: what is written / raised differs from C10/DriverClose.v',
                     'case': {'driver_history': list(dh[bi])}, 'model': mv, 'impl': dexp[bi]})
+    # ---- one RadioDriver object with its real comm threads: frames per connection vs the queue model
+    qterms, qexp, qcases = [], [], []
+    for ops in radio_queue_histories():
+        try:
+            got = run_radio_queue_history(ops)
+        except Exception:
+            got = {'frames': [(-9, -9)], 'qops': [['connect']]}
+        if got['qops'] is None:
+            continue
+        qcases.append(ops)
+        qterms.append(queue_term(got['qops']))
+        qexp.append([x for f in got['frames'] for x in f])
+    for bi, mv in coqrun.compare_blocks(DHEADER, qterms, qexp, tag='c10q', shard=16):
+        nd += 1
+        dis.append({'what': 'RadioDriver over a fake radio: the frames transmitted per connection differ from the queue model '
+                            '(C10/DriverClose.v, FreshQueues)', 'case': {'radio_queue_history': qcases[bi]}, 'model': mv,
+                    'impl': qexp[bi]})
     if dis:
         try:    # diagnostic: does the implementation still behave like the tree before fix F10?
             dd = [d for d in dis if 'expanded' in d]
@@ -1265,6 +1443,11 @@ def oracle(ctx, deep=False):
         if f and f['class'] not in {x['class'] for x in fails}:
             fails.append(_shrink_lock(f))
     n_dh = 0
+    for ops in radio_queue_histories():
+        n_dh += 1
+        _, f = check_radio_queue_history(ops)
+        if f and f['class'] not in {x['class'] for x in fails}:
+            fails.append(f)
     for kind, ops in driver_histories():
         n_dh += 1
         _, f = check_driver_history(kind, ops)
@@ -1293,6 +1476,8 @@ def oracle(ctx, deep=False):
 
 
 def replay(payload, ctx):
+    if 'radio_queue_history' in payload['case']:
+        return check_radio_queue_history(payload['case']['radio_queue_history'])[1]
     if 'driver_history' in payload['case']:
         return check_driver_history(*payload['case']['driver_history'])[1]
     if 'lock_events' in payload['case']:
